@@ -1,20 +1,29 @@
 (* C01 - End-to-end message fidelity for every message and transport behaviour.
 
-   FULL STATEMENT (the target): for h3's own layers (C12 header mapping, C11 stateless QPACK, C14 writers, C02/C03
-   FrameStream + RequestStream) and every well-formed message, send-piece split, write acceptance script, wire
-   chunking and interleaving of arrivals with the receiving application's calls:
+   THE STATEMENT: for every well-formed message, send-piece split, write acceptance script (back-pressure), wire
+   chunking and interleaving of arrivals with the receiving application's calls,
        receiver_outcome (any history delivering (wire (sender_program msg))) = expected_events msg
-   i.e. head, body bytes, end of body, trailers, end of message - once each, in this order - in both directions.
+   i.e. the receiving application sees the head (same method, scheme, authority, path; same field values per name in
+   order), the body bytes, the end of the body, the trailers, the end of the message - once each, in this order - in
+   both directions.
 
-   What is pinned here:
-   * C01_composition: the composition argument, closed, for ANY layers: every property-owned layer enters through its
-     round-trip law as an explicit premise (no axioms).
-   * the instantiations of Proofs/EndToEndInst.v discharge these premises by the owners' theorems as they exist. *)
+   C01_request_fidelity / C01_response_fidelity state it for the pipeline in which EVERY layer is the model of h3's
+   own code, and are CLOSED:
+     header mapping   C12 model (Model/Headers.v over Model/HttpCrate.v)    round trip: Proofs/EndToEndHeaders.v
+     field sections   C11 model (Model/QpackStateless.v)                    law: C11 stateless_roundtrip
+     write side       C14 model (Model/WriteBuf.v, Model/FrameEnc.v)        law: the three Buf laws of C14
+     receive side     C02 + C03 models (FrameStream, RequestStream)         law: C03 request_refinement
+   composed by C01_composition.  Premises that remain, by design: the message is one an application can build with the
+   `http` crate and that crate's parsers accept what its printers print (request_head_ok / response_head_ok /
+   trailers_ok - Proofs/EndToEndHeaders.v, Proofs/EndToEndInst.v), field sections below 2^26 bytes, body pieces are
+   byte strings below 2^62 bytes; the receiving application's calls have completed (that they do complete is C06).
+   This same pipeline is the model column of the correspondence run against the real client and server. *)
 From H3V Require Import Base.Bytes Base.BytesLemmas Model.Varint Model.HttpCrate Model.Headers Spec.WellFormed Proofs.HeadersProofs
-  Model.EndToEnd Spec.EndToEndSpec Model.EndToEndRef Model.EndToEndLayers
+  Model.EndToEnd Spec.EndToEndSpec Model.EndToEndRef Model.EndToEndLayers Model.EndToEndH3
   Spec.EndToEndStream Proofs.EndToEndProofs Proofs.EndToEndHeaders Proofs.EndToEndWire Proofs.EndToEndFrames
-  Proofs.EndToEndRefProofs Proofs.EndToEndReader Proofs.EndToEndInst.
+  Proofs.EndToEndRefProofs Proofs.EndToEndReader Proofs.EndToEndQpack Proofs.EndToEndC03 Proofs.EndToEndInst.
 
+(* ================================================================ the composition argument, for ANY layers *)
 Theorem C01_composition :
   forall (H H' T T' : Type)
     (* the layers *)
@@ -67,33 +76,48 @@ Theorem C01_composition :
       = expected_events norm_h norm_t m.
 Proof. exact e2e_fidelity_generic. Qed.
 
-(* ---------------------------------------------------------------------------------------------------------------
-   The composition instantiated with h3's own layers as far as their owners' theorems exist.
-   DISCHARGED here (no longer premises):
-     * header mapping, both roles and trailers: Header::request/response/trailer + HeaderIter followed by TryFrom +
-       into_request_parts / into_response_parts / into_fields over the C12 model gives the message back
-       (Proofs/EndToEndHeaders.v), for every message satisfying [request_head_ok] / [response_head_ok] /
-       [trailers_ok] - these predicates ARE the `http`-crate premises (every Method / Scheme / Authority /
-       PathAndQuery / HeaderName / HeaderValue the application can hold prints to a string the crate's parser accepts;
-       at most 24576 field lines) plus a field section below 2^26 bytes (RFC 9114 4.2.2 measure);
-     * write side: stream::write over the C14 WriteBuf model under any acceptance script (Proofs/EndToEndWire.v);
-     * the RFC reading of HEADERS DATA* HEADERS? reserved? laid out per RFC 9114 7.1 is exactly those frames
-       (Proofs/EndToEndFrames.v, over the C02 reference reader Spec/Frames.v).
-   STILL OPEN (explicit premises below), each owned by another property:
-     (P-C11)      decode_stateless (encode_stateless fs) = fs on byte-valued field lists, the block fitting a frame;
-     (P-C02/C03)  under any chunking / interleaving the completed receive calls hand up [rfc_stream_reading] of the flat
-                  bytes (Spec/EndToEndStream.v: RFC 9114 4.1 over the frame reader of Spec/Frames.v).
-   Hence the names end in _partial. *)
-Theorem C01_request_fidelity_partial :
-  forall (encode_section : fieldl -> option bytes) (decode_section : bytes -> option fieldl)
+(* ================================================================ the end-to-end theorems, every layer h3's own *)
+Theorem C01_request_fidelity :
+  forall (grease : option N) (m : message c12_request hmap) (ks : list N) (b : bytes) (h : list hevent) items s,
+    request_head_ok (m_head m) -> Forall block_ok (m_pieces m) ->
+    match m_trailers m with Some t => trailers_ok t | None => True end ->
+    match grease with Some g => g < 148764065110560899 | None => True end ->
+    (* what the client writes: send_request, send_data per piece, send_trailers?, finish - accepted ks bytes at a time *)
+    wire c12_request hmap c12_fields_of_request c12_fields_of_trailers c11_encode_section c14_wire_write grease m ks = Some b ->
+    (* reaches the server under any history: chunks of b (never empty), FIN, the application's calls anywhere *)
+    hist_ok h = true -> hist_flat h = b ->
+    rx_run c03_state c03_arrive c03_fin (c03_poll RequestStream.RServer) h c03_init = (items, s) -> c03_done s = true ->
+    (* resolve_request, recv_data until None, recv_trailers show exactly the message *)
+    receiver_outcome request hmap c12_request_of_fields c12_trailers_of_fields c11_decode_section
+                     c03_state c03_init c03_arrive c03_fin (c03_poll RequestStream.RServer) h
+    = expected_events c12_norm_request (fun t : hmap => t) m.
+Proof. exact request_fidelity_h3. Qed.
+
+Theorem C01_response_fidelity :
+  forall (grease : option N) (m : message c12_response hmap) (ks : list N) (b : bytes) (h : list hevent) items s,
+    response_head_ok (m_head m) -> Forall block_ok (m_pieces m) ->
+    match m_trailers m with Some t => trailers_ok t | None => True end ->
+    match grease with Some g => g < 148764065110560899 | None => True end ->
+    wire c12_response hmap c12_fields_of_response c12_fields_of_trailers c11_encode_section c14_wire_write grease m ks = Some b ->
+    hist_ok h = true -> hist_flat h = b ->
+    rx_run c03_state c03_arrive c03_fin (c03_poll RequestStream.RClient) h c03_init = (items, s) -> c03_done s = true ->
+    receiver_outcome response hmap c12_response_of_fields c12_trailers_of_fields c11_decode_section
+                     c03_state c03_init c03_arrive c03_fin (c03_poll RequestStream.RClient) h
+    = expected_events (fun p => {| rs_status := cp_status p; rs_headers := cp_fields p |}) (fun t : hmap => t) m.
+Proof. exact response_fidelity_h3. Qed.
+
+(* ================================================================ the same for any field-section codec and any reader
+   that satisfy their laws (h3's header mapping and writer fixed); the two theorems above are instances *)
+Theorem C01_request_fidelity_any_codec_and_reader :
+  forall (sc : bytes -> option FrameVocab.settings_err) (encode_section : fieldl -> option bytes) (decode_section : bytes -> option fieldl)
     (rstate : Type) (r_init : rstate) (r_arrive : bytes -> rstate -> rstate) (r_fin : rstate -> rstate)
     (r_poll : rstate -> list ritem * rstate) (r_done : rstate -> bool),
-    (* P-C11 *)
+    (* the codec law (C11 for h3's) *)
     (forall fs b, fields_ok fs -> encode_section fs = Some b -> block_ok b /\ decode_section b = Some fs) ->
-    (* P-C02/C03 *)
+    (* the reader law (C02 + C03 for h3's) *)
     (forall h items s, hist_ok h = true -> rx_run rstate r_arrive r_fin r_poll h r_init = (items, s) ->
-                       r_done s = true -> wf_bytes (hist_flat h) -> no_fail (rfc_stream_reading (hist_flat h)) ->
-                       merge_items [] items = rfc_stream_reading (hist_flat h)) ->
+                       r_done s = true -> wf_bytes (hist_flat h) -> no_fail (rfc_stream_reading_with sc (hist_flat h)) ->
+                       merge_items [] items = rfc_stream_reading_with sc (hist_flat h)) ->
     forall (grease : option N) (m : message c12_request hmap) (ks : list N) (b : bytes) (h : list hevent) items s,
       request_head_ok (m_head m) -> Forall block_ok (m_pieces m) ->
       match m_trailers m with Some t => trailers_ok t | None => True end ->
@@ -106,14 +130,14 @@ Theorem C01_request_fidelity_partial :
       = expected_events c12_norm_request (fun t : hmap => t) m.
 Proof. exact request_fidelity. Qed.
 
-Theorem C01_response_fidelity_partial :
-  forall (encode_section : fieldl -> option bytes) (decode_section : bytes -> option fieldl)
+Theorem C01_response_fidelity_any_codec_and_reader :
+  forall (sc : bytes -> option FrameVocab.settings_err) (encode_section : fieldl -> option bytes) (decode_section : bytes -> option fieldl)
     (rstate : Type) (r_init : rstate) (r_arrive : bytes -> rstate -> rstate) (r_fin : rstate -> rstate)
     (r_poll : rstate -> list ritem * rstate) (r_done : rstate -> bool),
     (forall fs b, fields_ok fs -> encode_section fs = Some b -> block_ok b /\ decode_section b = Some fs) ->
     (forall h items s, hist_ok h = true -> rx_run rstate r_arrive r_fin r_poll h r_init = (items, s) ->
-                       r_done s = true -> wf_bytes (hist_flat h) -> no_fail (rfc_stream_reading (hist_flat h)) ->
-                       merge_items [] items = rfc_stream_reading (hist_flat h)) ->
+                       r_done s = true -> wf_bytes (hist_flat h) -> no_fail (rfc_stream_reading_with sc (hist_flat h)) ->
+                       merge_items [] items = rfc_stream_reading_with sc (hist_flat h)) ->
     forall (grease : option N) (m : message c12_response hmap) (ks : list N) (b : bytes) (h : list hevent) items s,
       response_head_ok (m_head m) -> Forall block_ok (m_pieces m) ->
       match m_trailers m with Some t => trailers_ok t | None => True end ->
@@ -126,9 +150,9 @@ Theorem C01_response_fidelity_partial :
       = expected_events (fun p => {| rs_status := cp_status p; rs_headers := cp_fields p |}) (fun t : hmap => t) m.
 Proof. exact response_fidelity. Qed.
 
-(* Every premise met - h3's header mapping (C12 model) and writer (C14 model), with the reference field-section coding
-   and the store-and-forward reader of Model/EndToEndRef.v standing in for the two layers still open.  CLOSED: it shows
-   that the premises of the _partial theorems are jointly satisfiable and what the final theorem will look like. *)
+(* ================================================================ two more instances, independent of C11 and C02/C03:
+   the reference field-section coding with (a) a store-and-forward reader, (b) the incremental reference reader of
+   Model/EndToEndRef.v, whose law (any chunking, any interleaving) is proved from scratch in Proofs/EndToEndReader.v *)
 Theorem C01_request_fidelity_store_and_forward :
   forall (grease : option N) (m : message c12_request hmap) (ks : list N) (b : bytes) (h : list hevent) items s,
     request_head_ok (m_head m) -> Forall block_ok (m_pieces m) ->
@@ -245,7 +269,31 @@ Example C01_h3_layers_inhabited :
     = expected_events c12_norm_request (fun t : hmap => t) m.
 Proof. eexists. split; [vm_compute; reflexivity|]. split; [|split]; vm_compute; reflexivity. Qed.
 
-(* the layers discharged so far, pinned on their own *)
+(* non-vacuity of C01_request_fidelity: the message above through the pipeline whose every layer is h3's (QPACK with
+   Huffman strings, WriteBuf drained 1,1,2,0,3.. bytes at a time, FrameStream fed chunks of 1,2,3,1,1.. bytes with
+   0,2,1,0.. calls in between) arrives as itself, the history is well formed and the calls have completed *)
+Example C01_request_fidelity_inhabited :
+  let q := {| cq_method := [80; 79; 83; 84];
+              cq_uri := {| u_scheme := Some [104; 116; 116; 112]; u_authority := [97; 46; 98];
+                           u_path := {| pq_data := [47; 120; 63; 121]; pq_query := Some 2 |} |};
+              cq_fields := [([120; 45; 97], [[49]; [50]; [51]]); ([98], [[]])];
+              cq_ext := None |} in
+  let m := Msg q [[1; 2; 3]; []; [4; 5]; [6]] (Some [([116], [[49]; [50]])]) in
+  h3_request_outcome (Some 5) m [1; 1; 2; 0; 3] [1; 2; 3; 1; 1] [0; 2; 1; 0]
+  = Some (expected_events c12_norm_request (fun t : hmap => t) m) /\
+  exists b items s,
+    wire c12_request hmap c12_fields_of_request c12_fields_of_trailers c11_encode_section c14_wire_write (Some 5) m
+         ([1; 1; 2; 0; 3] ++ repeat h3_grant 14) = Some b /\
+    hist_ok (mk_history [1; 2; 3; 1; 1] [0; 2; 1; 0] 23 b) = true /\
+    rx_run c03_state c03_arrive c03_fin (c03_poll RequestStream.RServer) (mk_history [1; 2; 3; 1; 1] [0; 2; 1; 0] 23 b) c03_init
+      = (items, s) /\ c03_done s = true.
+Proof.
+  split; [vm_compute; reflexivity|].
+  eexists. eexists. eexists. split; [vm_compute; reflexivity|]. split; [vm_compute; reflexivity|].
+  split; [vm_compute; reflexivity|]. vm_compute. reflexivity.
+Qed.
+
+(* ================================================================ the layers' laws on their own *)
 Theorem C01_request_head_roundtrip :
   forall q fs, request_ok q -> c12_fields_of_request q = Some fs -> c12_request_of_fields fs = Some (c12_norm_request q).
 Proof. exact request_roundtrip. Qed.
@@ -266,6 +314,17 @@ Theorem C01_trailers_roundtrip :
   forall t fs, map_ok t -> count_ok (length (hm_iter t)) -> c12_fields_of_trailers t = Some fs ->
     c12_trailers_of_fields fs = Some t.
 Proof. exact trailers_roundtrip. Qed.
+(* field sections over the C11 model: decode_stateless (encode_stateless fs) = fs, the block is bytes and fits a frame *)
+Theorem C01_field_section_roundtrip :
+  forall fs b, fields_ok fs -> c11_encode_section fs = Some b -> block_ok b /\ c11_decode_section b = Some fs.
+Proof. exact c11_section_law. Qed.
+(* the receive side over the C02 + C03 models, either role: any chunking, any interleaving of arrivals and calls *)
+Theorem C01_h3_reader_any_interleaving :
+  forall r h items s,
+    hist_ok h = true -> rx_run c03_state c03_arrive c03_fin (c03_poll r) h c03_init = (items, s) -> c03_done s = true ->
+    wf_bytes (hist_flat h) -> no_fail (rfc_stream_reading_with FrameDec.settings_verdict (hist_flat h)) ->
+    merge_items [] items = rfc_stream_reading_with FrameDec.settings_verdict (hist_flat h).
+Proof. exact c03_reader_law. Qed.
 Theorem C01_layout_reads_back :
   forall hb pieces tb g,
     len hb < 2 ^ 62 -> Forall (fun p => len p < 2 ^ 62) pieces -> match tb with Some b => len b < 2 ^ 62 | None => True end ->
@@ -304,8 +363,10 @@ Example C01_response_inhabited :
 Proof. vm_compute; reflexivity. Qed.
 
 Print Assumptions C01_composition.
-Print Assumptions C01_request_fidelity_partial.
-Print Assumptions C01_response_fidelity_partial.
+Print Assumptions C01_request_fidelity.
+Print Assumptions C01_response_fidelity.
+Print Assumptions C01_request_fidelity_any_codec_and_reader.
+Print Assumptions C01_response_fidelity_any_codec_and_reader.
 Print Assumptions C01_request_fidelity_store_and_forward.
 Print Assumptions C01_response_fidelity_store_and_forward.
 Print Assumptions C01_request_fidelity_reference_reader.
@@ -318,3 +379,5 @@ Print Assumptions C01_response_head_roundtrip.
 Print Assumptions C01_trailers_roundtrip.
 Print Assumptions C01_written_bytes_any_script.
 Print Assumptions C01_layout_reads_back.
+Print Assumptions C01_field_section_roundtrip.
+Print Assumptions C01_h3_reader_any_interleaving.
